@@ -111,6 +111,9 @@ func PerformInputLookup(aggs *structs.QueryAggregators) error {
 	}
 	filename := aggs.GenerateEvent.InputLookup.Filename
 
+	if !utils.IsSafePathComponent(filename) {
+		return fmt.Errorf("PerformInputLookup: invalid lookup file name %q", filename)
+	}
 	if !checkCSVFormat(filename) {
 		return fmt.Errorf("PerformInputLookup: Only .csv and .csv.gz formats are currently supported")
 	}
